@@ -14,10 +14,23 @@ def runs(tier, seed, replay):
 
 CONFIG = {
     "runs": runs,
-    "status": "partial (in progress): validity/amount/unsat theorem over ALL choice streams being proved on the choice-stream model of "
-              "sample_node; uniformity is partial by nature (idealised distributions; Pcg32, f64 weights and rand_distr are only exercised: "
-              "chi-square with false-alarm probability < 1e-12, a statistical test, not a proof); every real run's recorded choices are "
-              "replayed by the extracted model and must give the identical sample list",
+    "status": "validity/amount/unsat/function-of-choices FULL, uniformity PARTIAL (amount = 1, ideal primitives). "
+              "Proved in Coq (Props/C07.v, all closed under the global context) on the choice-stream model of sample_node: "
+              "C07_sample_node_valid - for EVERY choice stream satisfying choices_ok (each consumed Split has one non-negative entry per child, "
+              "sums to the requested amount, is 0 on zero-temp children; each consumed Perm is a permutation; the stream has the shape the traversal asks for) "
+              "sample_node returns exactly `amount` samples, each (up to literal order) a member of filter (okA A) (enum i); "
+              "C07_valid - WF, in_range A, root not a true node (implied by n > 0; necessary: C07_true_root_refuted, the circuit [TrueN] over 0 features returns Some [] for amount 3), "
+              "MCA > 0, choices_ok => Some L, length L = amount, every element in ModelsA (complete, feature order, model, contains A); "
+              "C07_unsat - None iff MCA = 0 or a literal with |l| > n; both under the explicit hypothesis exec_ok (preprocess + execute_query return MCA and leave countsA in the temps of non-true nodes; proved with C02, not here); "
+              "C07_function_of_choices / C07_scratch_independent - samples and ok flag do not depend on incoming temps/pds (equal marks/md, e.g. Clean); "
+              "C07_uniform_ideal_single (+ _node, C07_ideal_streams_run) - for amount = 1 with ideal primitives (Or: unit split e_k with probability temp_k/temp_node, shuffles of <= 1 element) "
+              "the law of the sorted sample lists every element of ModelsA exactly once with probability 1/MCA (mass of every other configuration 0), under or_no_true (no Or node has a true child), "
+              "and every stream of that law runs on the model's sample_node, respects choices_ok and yields the listed outcome. "
+              "NOT proved: uniformity for amount k > 1 (statement and missing lemmas in a comment in Props/C07.v: multinomial/uniform-permutation distribution monad and the block-pattern counting lemma). "
+              "Outside the model, only exercised: Pcg32, the f64 weights, rand_distr Binomial/WeightedAliasIndex (chi-square with false-alarm probability < 1e-12, a statistical test, not a proof). "
+              "Found while proving (not covered by the theorems, no contract-respecting stream exists): an Or node whose non-zero-temp children are all hidden true nodes "
+              "(check_wf-accepted c2d input 'nnf 4 3 1 / L 1 / A 0 / O 0 1 1 / A 2 0 2', MCA = 1) makes the Rust panic in WeightedAliasIndex::new(empty).unwrap(); the model has no Panic outcome there and the generators do not produce it. "
+              "Correspondence: every real run's recorded choices are replayed by the extracted model and must give the identical sample list, and the extracted choices_ok (urs_choices_okb) is evaluated on every recorded stream",
     "assumptions": ["hook H2 records the split vectors and shuffle permutations of the real run (the shuffle permutation is computed on a clone of the generator)",
                     "rand/rand_distr/rand_pcg are trusted to implement their contracts"],
 }
